@@ -148,6 +148,14 @@ def gen_sami(rng, n=None, nlangs=None):
         if rng.random() < 0.3:
             extra = " margin-top: %s; text-align: %s;" % (rng.choice(["3%", "10px"]), rng.choice(["left", "right"]))
         css.append(".%s {Name: L%s; lang: %s; SAMI_Type: CC;%s}" % (k, k, c, extra))
+    if rng.random() < 0.25:
+        # several classes declaring the same language with different positioning: which one wins must not
+        # depend on anything but the document
+        for _ in range(rng.randint(1, 3)):
+            j = rng.randrange(nlangs)
+            css.append(".%sX%d {Name: alt; lang: %s; margin-top: %s; margin-left: %s; text-align: %s;}" % (
+                classes[j], rng.randrange(100), codes[j], rng.choice(["20pt", "7%", "3em"]), rng.choice(["11px", "2%"]),
+                rng.choice(["left", "right", "center"])))
     if rng.random() < 0.3:
         css.append("#Small {font-size: 8pt; color: yellow;}")
     if rng.random() < 0.2:
